@@ -1,11 +1,12 @@
 /-
-  C16 helper lemmas, kernel part D (NJMAX_NNZ analysis): the `efc_J_rowadr/rownnz` cells a builder thread writes.
+  C16 helper lemmas, kernel part D (NJMAX_NNZ): dropped threads of `_equality_joint`, `_equality_flex` (store `rownnz` BEFORE the nnz guard).
 -/
 import MjwVerif.Lemmas.C16
 set_option linter.unusedSimpArgs false
 set_option linter.unusedVariables false
 set_option linter.unusedTactic false
 set_option linter.unreachableTactic false
+set_option linter.unusedSectionVars false
 namespace Mjw.Lemmas.C16
 open Mjw
 
@@ -19,97 +20,66 @@ variable {K : Type} [Scalar K] (nv : Int) (opt_timestep : (Int → K)) (opt_disa
 local notation "KW" => Gen.Constraint._equality_joint__kernel nv opt_timestep opt_disableflags qpos0 jnt_qposadr jnt_dofadr dof_invweight0 eq_obj1id eq_obj2id eq_solref eq_solimp eq_data eq_jnt_adr qpos_in qvel_in eq_active_in njmax_in njmax_nnz_in ne_out nefc_out efc_type_out efc_id_out efc_jtdaj_adr_out efc_jtdaj_nrow_out efc_jtdaj_nblock_out efc_J_rownnz_out efc_J_rowadr_out efc_J_colind_out efc_J_out efc_pos_out efc_margin_out efc_D_out efc_vel_out efc_aref_out efc_frictionloss_out efc_nnz_out alloc0 st_is_sparse_and_newton alloc1 eq_data_shape0 qpos0_shape0 dof_invweight0_shape0 st_is_sparse alloc2 opt_timestep_shape0 eq_solref_shape0 eq_solimp_shape0 cl_rowadr tid0 tid1
 
 set_option maxHeartbeats 1600000 in
-/-- a thread that writes `efc_J_rowadr_out[w, r] := v` (it does so only after its nnz guard passed) also wrote
-    `efc_J_rownnz_out[w, r] := n` with `v + n ≤ njmax_nnz_in` -/
-theorem equality_joint_granted_cells (r v : Int) (h : cellI KW "efc_J_rowadr_out" tid0 r v) :
-    ∃ n, cellI KW "efc_J_rownnz_out" tid0 r n ∧ v + n ≤ njmax_nnz_in := by
-  revert h
-  unfold Gen.Constraint._equality_joint__kernel
-  by_cases hg : alloc0 < njmax_in
-  · cases st_is_sparse <;> ksimp [hg, cellI]
-    all_goals (intros; subst_vars; try simp_all)
-    all_goals (try omega)
-    all_goals (try (split_ifs at * <;> omega))
-  · ksimp [hg, cellI]
-
-set_option maxHeartbeats 1600000 in
-/-- … and `efc_J_rownnz_out[w, alloc0]` is written BEFORE the nnz guard: a thread whose nnz request is dropped
-    leaves `rownnz` of its row NEW and `rowadr` of its row STALE -/
-theorem equality_joint_dropped_cells (hr : reached KW "nefc_out" [tid0]) (hg : alloc0 < njmax_in) (hs : st_is_sparse = true)
-    (hdrop : ¬ allocFits KW "efc_nnz_out" [tid0] alloc2 njmax_nnz_in) :
-    (∃ n, cellI KW "efc_J_rownnz_out" tid0 alloc0 n) ∧ ∀ r v, ¬ cellI KW "efc_J_rowadr_out" tid0 r v := by
+/-- dropped thread (row allocated, sparse, nnz request does not fit): the value of `efc_J_rownnz_out[w, alloc0]` after the
+    thread's own writes is 0 (the count it stored before the guard is overwritten) -/
+theorem equality_joint_dropped_rownnz_zero (d : Int) (hr : reached KW "nefc_out" [tid0]) (hg : alloc0 < njmax_in)
+    (hs : st_is_sparse = true) (hdrop : ¬ allocFits KW "efc_nnz_out" [tid0] alloc2 njmax_nnz_in) :
+    Write.lookupI KW "efc_J_rownnz_out" [tid0, alloc0] d = 0 := by
   revert hr hdrop
   subst hs
   unfold Gen.Constraint._equality_joint__kernel
-  ksimp [hg, cellI]
-  all_goals (intros; try simp_all)
-  all_goals (try omega)
+  ksimp [hg, apply_ite (fun l => Write.lookupI l "efc_J_rownnz_out" [tid0, alloc0] d)]
+  intros
+  split_ifs <;> simp_all [Write.lookupI]
+  all_goals (first | omega | (exfalso; omega))
+
+set_option maxHeartbeats 1600000 in
+/-- … and it never writes `efc_J_rowadr_out` -/
+theorem equality_joint_dropped_no_rowadr (hs : st_is_sparse = true)
+    (hdrop : ¬ allocFits KW "efc_nnz_out" [tid0] alloc2 njmax_nnz_in) (r v : Int) :
+    ¬ cellI KW "efc_J_rowadr_out" tid0 r v := by
+  revert hdrop
+  subst hs
+  unfold Gen.Constraint._equality_joint__kernel
+  by_cases hg : alloc0 < njmax_in
+  · ksimp [hg, cellI]
+    all_goals (intros; try simp_all)
+    all_goals (try omega)
+  · ksimp [hg, cellI]
 end equality_joint
 
 
-section limit_slide_hinge
-variable {K : Type} [Scalar K] (nv : Int) (opt_timestep : (Int → K)) (opt_disableflags : Int) (jnt_qposadr : (Int → Int)) (jnt_dofadr : (Int → Int)) (jnt_solref : (Int → Int → V2 K)) (jnt_solimp : (Int → Int → V5 K)) (jnt_range : (Int → Int → V2 K)) (jnt_margin : (Int → Int → K)) (dof_invweight0 : (Int → Int → K)) (jnt_limited_slide_hinge_adr : (Int → Int)) (qpos_in : (Int → Int → K)) (qvel_in : (Int → Int → K)) (njmax_in : Int) (njmax_nnz_in : Int) (nl_out : (Int → Int)) (nefc_out : (Int → Int)) (efc_type_out : (Int → Int → Int)) (efc_id_out : (Int → Int → Int)) (efc_jtdaj_adr_out : (Int → Int → Int)) (efc_jtdaj_nrow_out : (Int → Int → Int)) (efc_jtdaj_nblock_out : (Int → Int)) (efc_J_rownnz_out : (Int → Int → Int)) (efc_J_rowadr_out : (Int → Int → Int)) (efc_J_colind_out : (Int → Int → Int → Int)) (efc_J_out : (Int → Int → Int → K)) (efc_pos_out : (Int → Int → K)) (efc_margin_out : (Int → Int → K)) (efc_D_out : (Int → Int → K)) (efc_vel_out : (Int → Int → K)) (efc_aref_out : (Int → Int → K)) (efc_frictionloss_out : (Int → Int → K)) (efc_nnz_out : (Int → Int)) (jnt_range_shape0 : Int) (jnt_margin_shape0 : Int) (alloc0 : Int) (st_is_sparse_and_newton : Bool) (alloc1 : Int) (st_is_sparse : Bool) (alloc2 : Int) (dof_invweight0_shape0 : Int) (jnt_solref_shape0 : Int) (jnt_solimp_shape0 : Int) (opt_timestep_shape0 : Int) (tid0 : Int) (tid1 : Int)
-local notation "KW" => Gen.Constraint._limit_slide_hinge__kernel nv opt_timestep opt_disableflags jnt_qposadr jnt_dofadr jnt_solref jnt_solimp jnt_range jnt_margin dof_invweight0 jnt_limited_slide_hinge_adr qpos_in qvel_in njmax_in njmax_nnz_in nl_out nefc_out efc_type_out efc_id_out efc_jtdaj_adr_out efc_jtdaj_nrow_out efc_jtdaj_nblock_out efc_J_rownnz_out efc_J_rowadr_out efc_J_colind_out efc_J_out efc_pos_out efc_margin_out efc_D_out efc_vel_out efc_aref_out efc_frictionloss_out efc_nnz_out jnt_range_shape0 jnt_margin_shape0 alloc0 st_is_sparse_and_newton alloc1 st_is_sparse alloc2 dof_invweight0_shape0 jnt_solref_shape0 jnt_solimp_shape0 opt_timestep_shape0 tid0 tid1
+section equality_flex
+variable {K : Type} [Scalar K] (nv : Int) (opt_timestep : (Int → K)) (opt_disableflags : Int) (flex_interp : (Int → Int)) (flex_edgeadr : (Int → Int)) (flex_edgenum : (Int → Int)) (flexedge_length0 : (Int → K)) (flexedge_invweight0 : (Int → K)) (flexedge_J_rownnz : (Int → Int)) (flexedge_J_rowadr : (Int → Int)) (flexedge_J_colind : (Int → Int)) (eq_obj1id : (Int → Int)) (eq_solref : (Int → Int → V2 K)) (eq_solimp : (Int → Int → V5 K)) (eq_flex_adr : (Int → Int)) (qvel_in : (Int → Int → K)) (eq_active_in : (Int → Int → Bool)) (flexedge_J_in : (Int → Int → K)) (flexedge_length_in : (Int → Int → K)) (njmax_in : Int) (njmax_nnz_in : Int) (ne_out : (Int → Int)) (nefc_out : (Int → Int)) (efc_type_out : (Int → Int → Int)) (efc_id_out : (Int → Int → Int)) (efc_jtdaj_adr_out : (Int → Int → Int)) (efc_jtdaj_nrow_out : (Int → Int → Int)) (efc_jtdaj_nblock_out : (Int → Int)) (efc_J_rownnz_out : (Int → Int → Int)) (efc_J_rowadr_out : (Int → Int → Int)) (efc_J_colind_out : (Int → Int → Int → Int)) (efc_J_out : (Int → Int → Int → K)) (efc_pos_out : (Int → Int → K)) (efc_margin_out : (Int → Int → K)) (efc_D_out : (Int → Int → K)) (efc_vel_out : (Int → Int → K)) (efc_aref_out : (Int → Int → K)) (efc_frictionloss_out : (Int → Int → K)) (efc_nnz_out : (Int → Int)) (alloc0 : Int) (st_is_sparse_and_newton : Bool) (alloc1 : Int) (eq_solref_shape0 : Int) (eq_solimp_shape0 : Int) (st_is_sparse : Bool) (alloc2 : Int) (opt_timestep_shape0 : Int) (tid0 : Int) (tid1 : Int) (tid2 : Int)
+local notation "KW" => Gen.Constraint._equality_flex__kernel nv opt_timestep opt_disableflags flex_interp flex_edgeadr flex_edgenum flexedge_length0 flexedge_invweight0 flexedge_J_rownnz flexedge_J_rowadr flexedge_J_colind eq_obj1id eq_solref eq_solimp eq_flex_adr qvel_in eq_active_in flexedge_J_in flexedge_length_in njmax_in njmax_nnz_in ne_out nefc_out efc_type_out efc_id_out efc_jtdaj_adr_out efc_jtdaj_nrow_out efc_jtdaj_nblock_out efc_J_rownnz_out efc_J_rowadr_out efc_J_colind_out efc_J_out efc_pos_out efc_margin_out efc_D_out efc_vel_out efc_aref_out efc_frictionloss_out efc_nnz_out alloc0 st_is_sparse_and_newton alloc1 eq_solref_shape0 eq_solimp_shape0 st_is_sparse alloc2 opt_timestep_shape0 tid0 tid1 tid2
 
 set_option maxHeartbeats 1600000 in
-/-- a thread that writes `efc_J_rowadr_out[w, r] := v` (it does so only after its nnz guard passed) also wrote
-    `efc_J_rownnz_out[w, r] := n` with `v + n ≤ njmax_nnz_in` -/
-theorem limit_slide_hinge_granted_cells (r v : Int) (h : cellI KW "efc_J_rowadr_out" tid0 r v) :
-    ∃ n, cellI KW "efc_J_rownnz_out" tid0 r n ∧ v + n ≤ njmax_nnz_in := by
-  revert h
-  unfold Gen.Constraint._limit_slide_hinge__kernel
-  by_cases hg : alloc0 < njmax_in
-  · cases st_is_sparse <;> ksimp [hg, cellI]
-    all_goals (intros; subst_vars; try simp_all)
-    all_goals (try omega)
-    all_goals (try (split_ifs at * <;> omega))
-  · ksimp [hg, cellI]
-
-set_option maxHeartbeats 1600000 in
-/-- … and `efc_J_rownnz_out[w, alloc0]` is written BEFORE the nnz guard: a thread whose nnz request is dropped
-    leaves `rownnz` of its row NEW and `rowadr` of its row STALE -/
-theorem limit_slide_hinge_dropped_cells (hr : reached KW "nefc_out" [tid0]) (hg : alloc0 < njmax_in) (hs : st_is_sparse = true)
-    (hdrop : ¬ allocFits KW "efc_nnz_out" [tid0] alloc2 njmax_nnz_in) :
-    (∃ n, cellI KW "efc_J_rownnz_out" tid0 alloc0 n) ∧ ∀ r v, ¬ cellI KW "efc_J_rowadr_out" tid0 r v := by
+/-- dropped thread (row allocated, sparse, nnz request does not fit): the value of `efc_J_rownnz_out[w, alloc0]` after the
+    thread's own writes is 0 (the count it stored before the guard is overwritten) -/
+theorem equality_flex_dropped_rownnz_zero (d : Int) (hr : reached KW "nefc_out" [tid0]) (hg : alloc0 < njmax_in)
+    (hs : st_is_sparse = true) (hdrop : ¬ allocFits KW "efc_nnz_out" [tid0] alloc2 njmax_nnz_in) :
+    Write.lookupI KW "efc_J_rownnz_out" [tid0, alloc0] d = 0 := by
   revert hr hdrop
   subst hs
-  unfold Gen.Constraint._limit_slide_hinge__kernel
-  ksimp [hg, cellI]
-  all_goals (intros; try simp_all)
-  all_goals (try omega)
-end limit_slide_hinge
-
-
-section friction_dof
-variable {K : Type} [Scalar K] (nv : Int) (opt_timestep : (Int → K)) (opt_disableflags : Int) (dof_solref : (Int → Int → V2 K)) (dof_solimp : (Int → Int → V5 K)) (dof_frictionloss : (Int → Int → K)) (dof_invweight0 : (Int → Int → K)) (qvel_in : (Int → Int → K)) (njmax_in : Int) (njmax_nnz_in : Int) (nf_out : (Int → Int)) (nefc_out : (Int → Int)) (efc_type_out : (Int → Int → Int)) (efc_id_out : (Int → Int → Int)) (efc_jtdaj_adr_out : (Int → Int → Int)) (efc_jtdaj_nrow_out : (Int → Int → Int)) (efc_jtdaj_nblock_out : (Int → Int)) (efc_J_rownnz_out : (Int → Int → Int)) (efc_J_rowadr_out : (Int → Int → Int)) (efc_J_colind_out : (Int → Int → Int → Int)) (efc_J_out : (Int → Int → Int → K)) (efc_pos_out : (Int → Int → K)) (efc_margin_out : (Int → Int → K)) (efc_D_out : (Int → Int → K)) (efc_vel_out : (Int → Int → K)) (efc_aref_out : (Int → Int → K)) (efc_frictionloss_out : (Int → Int → K)) (efc_nnz_out : (Int → Int)) (dof_frictionloss_shape0 : Int) (alloc0 : Int) (st_is_sparse_and_newton : Bool) (alloc1 : Int) (st_is_sparse : Bool) (alloc2 : Int) (dof_invweight0_shape0 : Int) (dof_solref_shape0 : Int) (dof_solimp_shape0 : Int) (opt_timestep_shape0 : Int) (tid0 : Int) (tid1 : Int)
-local notation "KW" => Gen.Constraint._friction_dof__kernel nv opt_timestep opt_disableflags dof_solref dof_solimp dof_frictionloss dof_invweight0 qvel_in njmax_in njmax_nnz_in nf_out nefc_out efc_type_out efc_id_out efc_jtdaj_adr_out efc_jtdaj_nrow_out efc_jtdaj_nblock_out efc_J_rownnz_out efc_J_rowadr_out efc_J_colind_out efc_J_out efc_pos_out efc_margin_out efc_D_out efc_vel_out efc_aref_out efc_frictionloss_out efc_nnz_out dof_frictionloss_shape0 alloc0 st_is_sparse_and_newton alloc1 st_is_sparse alloc2 dof_invweight0_shape0 dof_solref_shape0 dof_solimp_shape0 opt_timestep_shape0 tid0 tid1
+  unfold Gen.Constraint._equality_flex__kernel
+  ksimp [hg, apply_ite (fun l => Write.lookupI l "efc_J_rownnz_out" [tid0, alloc0] d)]
+  intros
+  split_ifs <;> simp_all [Write.lookupI]
+  all_goals (first | omega | (exfalso; omega))
 
 set_option maxHeartbeats 1600000 in
-/-- a thread that writes `efc_J_rowadr_out[w, r] := v` (it does so only after its nnz guard passed) also wrote
-    `efc_J_rownnz_out[w, r] := n` with `v + n ≤ njmax_nnz_in` -/
-theorem friction_dof_granted_cells (r v : Int) (h : cellI KW "efc_J_rowadr_out" tid0 r v) :
-    ∃ n, cellI KW "efc_J_rownnz_out" tid0 r n ∧ v + n ≤ njmax_nnz_in := by
-  revert h
-  unfold Gen.Constraint._friction_dof__kernel
-  by_cases hg : alloc0 < njmax_in
-  · cases st_is_sparse <;> ksimp [hg, cellI]
-    all_goals (intros; subst_vars; try simp_all)
-    all_goals (try omega)
-    all_goals (try (split_ifs at * <;> omega))
-  · ksimp [hg, cellI]
-
-set_option maxHeartbeats 1600000 in
-/-- … and `efc_J_rownnz_out[w, alloc0]` is written BEFORE the nnz guard: a thread whose nnz request is dropped
-    leaves `rownnz` of its row NEW and `rowadr` of its row STALE -/
-theorem friction_dof_dropped_cells (hr : reached KW "nefc_out" [tid0]) (hg : alloc0 < njmax_in) (hs : st_is_sparse = true)
-    (hdrop : ¬ allocFits KW "efc_nnz_out" [tid0] alloc2 njmax_nnz_in) :
-    (∃ n, cellI KW "efc_J_rownnz_out" tid0 alloc0 n) ∧ ∀ r v, ¬ cellI KW "efc_J_rowadr_out" tid0 r v := by
-  revert hr hdrop
+/-- … and it never writes `efc_J_rowadr_out` -/
+theorem equality_flex_dropped_no_rowadr (hs : st_is_sparse = true)
+    (hdrop : ¬ allocFits KW "efc_nnz_out" [tid0] alloc2 njmax_nnz_in) (r v : Int) :
+    ¬ cellI KW "efc_J_rowadr_out" tid0 r v := by
+  revert hdrop
   subst hs
-  unfold Gen.Constraint._friction_dof__kernel
-  ksimp [hg, cellI]
-  all_goals (intros; try simp_all)
-  all_goals (try omega)
-end friction_dof
+  unfold Gen.Constraint._equality_flex__kernel
+  by_cases hg : alloc0 < njmax_in
+  · ksimp [hg, cellI]
+    all_goals (intros; try simp_all)
+    all_goals (try omega)
+  · ksimp [hg, cellI]
+end equality_flex
 
 end Mjw.Lemmas.C16
